@@ -461,7 +461,8 @@ def resolve_name(obj, func, args, unknown=False):
             attr_owner = resolve_name(obj.value, func, args)
             try:
                 return getattr(attr_owner, obj.attr)
-            except AttributeError:
+            except Exception:
+                # properties may compute, and fail, in any way they like
                 raise UnresolvableName(obj)
         else:
             raise UnresolvableName(obj)
@@ -488,11 +489,15 @@ def forward_signatures(func, calls, args, kwargs, sig):
             wrapped_func = rn(wrapped, unknown=False)
         except UnresolvableName:
             raise UnknownForwards
-        fwdargsvals = [rn(arg) for arg in fwdargs]
-        fwdargsvals.extend(rn(fwdvarargs))
-        fwdkwargsvals = dict((n, rn(arg)) for n, arg in fwdkwargs.items())
-        fwdkwargsvals.update(rn(fwdvarkwargs))
-        using_partial = wrapped_func == functools.partial
+        try:
+            fwdargsvals = [rn(arg) for arg in fwdargs]
+            fwdargsvals.extend(rn(fwdvarargs))
+            fwdkwargsvals = dict((n, rn(arg)) for n, arg in fwdkwargs.items())
+            fwdkwargsvals.update(rn(fwdvarkwargs))
+        except (TypeError, ValueError):
+            # what the names denote right now cannot be unpacked
+            raise UnknownForwards
+        using_partial = wrapped_func is functools.partial
         if using_partial:
             if not fwdargsvals:
                 # functools.partial(*args, **kwargs): the callable is
